@@ -1,5 +1,6 @@
 #!/usr/bin/env python3
-"""dev helper: generate one unit from a repo dir and run verus on it; prints a summary"""
+"""dev helper: generate one unit from a repo dir and run verus on it; prints a summary
+usage: devrun.py <unit name | path.vu> [-v] [--gen-only]"""
 import sys, os, json
 sys.path.insert(0, os.path.dirname(os.path.dirname(os.path.abspath(__file__))))
 from vf import unit, verus, gens
@@ -7,7 +8,9 @@ repo = os.environ.get('VF_REPO', '/repo')
 name = sys.argv[1]
 out = os.environ.get('VF_OUT', '/tmp/vf_dev')
 os.makedirs(out, exist_ok=True)
-g = unit.generate(repo, '/verif/contracts/%s.vu' % name, gens.GENERATORS)
+upath = name if name.endswith('.vu') else '/verif/contracts/%s.vu' % name
+name = os.path.splitext(os.path.basename(upath))[0]
+g = unit.generate(repo, upath, gens.GENERATORS)
 p = os.path.join(out, name + '.rs')
 open(p, 'w').write(g.text())
 if '--gen-only' in sys.argv:
@@ -26,7 +29,7 @@ for e in viol:
         o = l['origin']
         print('    gen:%d %s %s | %s | %s' % (l['gen_line'], o.get('file', o.get('kind')), o.get('line', o.get('unit_line', '')), l['label'], l['text'][:100]))
 for e in limits:
-    print('LIMIT/ERROR', e['message'][:300])
+    print('LIMIT/ERROR', e['message'][:400])
     for l in e['primary']:
         o = l['origin']
         print('    gen:%d %s %s | %s | %s' % (l['gen_line'], o.get('file', o.get('kind')), o.get('line', o.get('unit_line', '')), l['label'], l['text'][:100]))
